@@ -59,6 +59,12 @@ CHECKS = {
         design="5 C15"),
 }
 
+CHECKS["C20"] = dict(
+    technique="Coq proofs about a pipeline model (slots written by independent tasks: any interleaving gives the same response; a combined section = the separate section), per-file service loops (rows of a file independent of the other files and their order) and the two front ends (MCP and CLI build the same use-case configuration; names/defaults regenerated from the Go AST); differential runs of the real CLI, the in-process MCP handlers and a -race build",
+    text="Theorems C20_interleaving, C20_combined_eq_separate, C20_unselected_empty, C20_per_file_independent, C20_order_only_permutes, C20_mcp_eq_cli (no axioms). Each run on generated projects: every section of the combined report vs the --select run; per-file complexity/dead-code/CBO/LCOM rows for every file alone, reversed order and random subsets vs the whole project (also evaluated through the Coq model Isolation.run); MCP analyze_code (full) vs CLI with the same options; -race build of the CLI under several GOMAXPROCS.",
+    note="partial: data-race freedom is tested (Go race detector), not proved; MCP transport not modelled. While the report is not yet deterministic (property C05) list order and the fields listed in UNSTABLE_KEYS are not compared. F30 (MCP ignored the [cbo] config section) repaired by a fix: commit.",
+    design="5 C20")
+
 NOT_YET = {}
 
 ALL = ["C%02d" % i for i in range(1, 21)]
